@@ -320,7 +320,14 @@ def separator_runs(unit, fn):
                         hi = idx
                         while hi + 1 < len(sibs) and skipish(sibs[hi + 1]):
                             hi += 1
-                        out.append((sibs[lo:hi + 1], cur, c))
+                        run_ = sibs[lo:hi + 1]
+                        # the run is the whole body of a loop that repeats it while white space follows (`do { skip } while(isspace(*src))`):
+                        # the loop is the run
+                        grand = unit.parent.get(par.get("id"))
+                        if lo == 0 and hi == len(sibs) - 1 and grand is not None and grand.get("kind") in ("DoStmt", "WhileStmt") and \
+                                not [y for y in A.calls_in(grand) if A.callee_name(y) not in SEPARATOR_HELPERS and A.callee_name(y) not in ("skip_while", "skip_fmt", "__ctype_b_loc", "isspace")]:
+                            run_ = [grand]
+                        out.append((run_, cur, c))
                     else:
                         out.append((A.kids(hb), ("through", used[0]), c))
     return out
@@ -356,6 +363,12 @@ def run_separator(unit, stmts, cur_id, text):
                 d_ = ev.ev(A.kids(n)[1])
                 ev.env[cur_id] += d_ if n.get("opcode") == "+=" else -d_
                 return ev.env[cur_id]
+            if k == "BinaryOperator" and n.get("opcode") == "=" and is_cursor(A.kids(n)[0]):
+                v_ = ev.ev(A.kids(n)[1])                # `*src = <a place in the text>`
+                if not isinstance(v_, int) or not 4096 <= v_ <= 4096 + len(text):
+                    raise FD.Unknown("the cursor is set to %r, no place in the text" % (v_,), n)
+                ev.env[cur_id] = v_
+                return v_
             if k == "UnaryOperator" and n.get("opcode") == "*" and is_cursor(n):
                 return ev.env[cur_id]
         if k == "CallExpr":
